@@ -88,6 +88,22 @@ fn run(ctx: &RunCtx) -> Report {
         rawnet.add(&sim, p);
         addrs.push(addr);
     }
+    // 1 run in 6 (own random stream): some (or all) storers answer lookups normally but flag their replies to
+    // WRITES read-only (a node that dropped to client mode in between): such a reply counts for nothing -
+    // neither as an acknowledgement nor as an error
+    let mut rorng = Rng::new(crate::rng::key(ctx.seed, &[crate::rng::tag("c08-ro-acks")]));
+    if !big && rorng.chance(1, 6) {
+        let all = rorng.chance(1, 2);
+        let mut n_ro = 0u64;
+        for i in 0..n_raw {
+            if all || rorng.chance(1, 2) {
+                rawnet.with_peer(i, |p| p.ro_put = true);
+                n_ro += 1;
+            }
+        }
+        report.probe("runs_with_read_only_flagged_write_replies", 1);
+        report.probe("storers_flagging_write_replies_read_only", n_ro);
+    }
     let know_all: Vec<usize> = (0..n_raw).collect();
     for i in 0..n_raw {
         rawnet.with_peer(i, |p| p.knows = know_all.clone());
@@ -321,7 +337,7 @@ fn run(ctx: &RunCtx) -> Report {
                 let mut counted: BTreeSet<(SocketAddrV4, u32)> = BTreeSet::new();
                 for d in tr.iter().filter(|d| d.dst == writer_addr && d.fate == Fate::Delivered) {
                     let Some(k) = Krpc::parse(&d.bytes) else { continue };
-                    if !k.is_response() {
+                    if !k.is_response() || k.ro {
                         continue;
                     }
                     if let Some(s) = own.iter().find(|s| s.0 == d.src && Some(s.1) == k.tid_u32()) {
@@ -371,7 +387,7 @@ fn run(ctx: &RunCtx) -> Report {
         t_send: u64,
         token: Vec<u8>,
     }
-    let (stores, tokens_seen, acks_in_time, acks_late, e301, e302, other_err, first_reply) = sim.with_trace(|tr| {
+    let (stores, tokens_seen, acks_in_time, acks_late, e301, e302, other_err, first_reply, ro_replies) = sim.with_trace(|tr| {
         let mut stores: Vec<Store> = vec![];
         // address -> tokens delivered to the writer, in order (t_deliver, token)
         let mut tokens_seen: BTreeMap<SocketAddrV4, Vec<(u64, Vec<u8>)>> = BTreeMap::new();
@@ -400,6 +416,7 @@ fn run(ctx: &RunCtx) -> Report {
         // first reply per store request: (arrival time, error code or 0 for an ack)
         let mut first_reply: BTreeMap<(SocketAddrV4, u32), (u64, i64)> = BTreeMap::new();
         let (mut e301, mut e302, mut other) = (0usize, 0usize, 0usize);
+        let mut ro_replies = 0usize;
         let mut counted: BTreeSet<(SocketAddrV4, u32)> = BTreeSet::new();
         for d in tr.iter() {
             if d.dst != writer_addr || d.fate != Fate::Delivered {
@@ -414,6 +431,12 @@ fn run(ctx: &RunCtx) -> Report {
                 continue; // only the first copy can count
             }
             let rtt = d.t_deliver.unwrap().saturating_sub(s.t_send);
+            if k.ro {
+                // read-only flagged: the request is answered (no longer outstanding), the reply counts for nothing
+                first_reply.insert((d.src, s.tid), (d.t_deliver.unwrap(), -1));
+                ro_replies += 1;
+                continue;
+            }
             first_reply.insert((d.src, s.tid), (d.t_deliver.unwrap(), k.error_code().unwrap_or(0)));
             if k.is_response() {
                 if rtt < 500 * MS && d.t_deliver.unwrap() <= t_done {
@@ -431,8 +454,9 @@ fn run(ctx: &RunCtx) -> Report {
                 }
             }
         }
-        (stores, tokens_seen, in_time, late, e301, e302, other, first_reply)
+        (stores, tokens_seen, in_time, late, e301, e302, other, first_reply, ro_replies)
     });
+    report.probe("read_only_flagged_write_replies", ro_replies as u64);
     report.probe("store_requests", stores.len() as u64);
     report.probe("acks_in_time", acks_in_time as u64);
     report.probe("acks_late", acks_late as u64);
